@@ -234,3 +234,20 @@ Theorem C03_test_args_unchanged : forall w f a t : list str,
   test_cmdline w f a t = (w ++ f) ++ a ++ t /\ (w = [] -> t = [] -> test_cmdline w f a t = f ++ a).
 Proof. exact test_cmdline_args. Qed.
 Print Assumptions C03_test_args_unchanged.
+
+(* leftmost-key-match semantics of the placeholder scan: every occurrence of a template key at a
+   position that is not inside an earlier key match is replaced, whatever precedes it - an
+   unknown @WORD@ in front (`owner@HOST@INPUT@`) cannot hide it *)
+Theorem C03_placeholder_leftmost_match : forall (d : tdict) (p k v r : str),
+  k <> [] -> key_free_before d p (k ++ r) ->
+  try_keys d (k ++ r) = Some (TStr v, length k) ->
+  sub_go d O (p ++ k ++ r) = option_map (fun t => p ++ v ++ t) (sub_go d O r).
+Proof. exact sub_go_leftmost. Qed.
+Print Assumptions C03_placeholder_leftmost_match.
+
+Theorem C03_placeholder_leftmost_match_list : forall (d : tdict) (p k x r : str),
+  k <> [] -> key_free_before d p (k ++ r) ->
+  try_keys d (k ++ r) = Some (TList [x], length k) ->
+  sub_go d O (p ++ k ++ r) = option_map (fun t => p ++ x ++ t) (sub_go d O r).
+Proof. exact sub_go_leftmost_list. Qed.
+Print Assumptions C03_placeholder_leftmost_match_list.
